@@ -965,15 +965,8 @@ func (c *compiler) evalCallExpression(node *ast.CallExpression) (interface{}, er
 			return nil, fmt.Errorf("could not call %s function: %w", node.Function, e)
 		}
 		if node.ChainCallee != nil {
-			octx := c.ctx.(*Context)
-			defer func() {
-				c.ctx = octx
-			}()
+			defer c.scope()()
 
-			c.ctx = octx.New()
-			for k, v := range octx.data {
-				c.ctx.Set(k, v)
-			}
 			c.ctx.Set(node.Function.String(), res[0].Interface())
 			vvs, err := c.evalExpression(node.ChainCallee)
 			if err != nil {
@@ -1005,17 +998,26 @@ func safeCall(fn reflect.Value, args []reflect.Value) (res []reflect.Value, err 
 	return fn.Call(args), nil
 }
 
-func (c *compiler) evalForExpression(node *ast.ForExpression) (interface{}, error) {
-	octx := c.ctx.(*Context)
-	defer func() {
-		c.ctx = octx
-	}()
-
+// scope makes a child of the current context the current one, for a loop
+// body or for the rest of a member chain, and returns the function that
+// makes the parent current again. The child of a *Context starts with a copy
+// of the parent's data (it includes application defined helpers); any other
+// implementation of hctx.Context is asked for its own child.
+func (c *compiler) scope() func() {
+	octx := c.ctx
 	c.ctx = octx.New()
-	// must copy all data from original (it includes application defined helpers)
-	for k, v := range octx.data {
-		c.ctx.Set(k, v)
+
+	if pc, ok := octx.(*Context); ok {
+		for k, v := range pc.data {
+			c.ctx.Set(k, v)
+		}
 	}
+
+	return func() { c.ctx = octx }
+}
+
+func (c *compiler) evalForExpression(node *ast.ForExpression) (interface{}, error) {
+	defer c.scope()()
 
 	iter, err := c.evalExpression(node.Iterable)
 	if err != nil {
@@ -1246,16 +1248,7 @@ func (c *compiler) evalArrayLiteral(node *ast.ArrayLiteral) (interface{}, error)
 }
 
 func (c *compiler) evalIndexCallee(rv reflect.Value, node *ast.IndexExpression) (interface{}, error) {
-	octx := c.ctx.(*Context)
-	defer func() {
-		c.ctx = octx
-	}()
-
-	c.ctx = octx.New()
-	// must copy all data from original (it includes application defined helpers)
-	for k, v := range octx.data {
-		c.ctx.Set(k, v)
-	}
+	defer c.scope()()
 
 	// The member expression after the index (node.Callee) starts, at the root
 	// of its callee chain, with an identifier the parser made up to stand
